@@ -28,6 +28,9 @@ type BMSpec struct {
 	// ShareDomains: processors with identical specs are instances of ONE domain (a replicated core),
 	// as the CLI's -add-processor <domain> allows; otherwise every processor gets a domain of its own.
 	ShareDomains bool `json:",omitempty"`
+	// DomainOrder, when set, is a permutation of the processor indices: the domains are created in that
+	// order, so a processor's domain id differs from its own index (as after -add-processor in any order).
+	DomainOrder []int `json:",omitempty"`
 }
 
 // OpByName looks an opcode up in the static registry.
@@ -87,7 +90,27 @@ func Build(s BMSpec) (*bondmachine.Bondmachine, error) {
 	bm.Rsize = uint8(s.Rsize)
 	bm.Init()
 	domOf := map[string]int{}
-	for i, ps := range s.Procs {
+	procDom := make([]int, len(s.Procs))
+	order := make([]int, len(s.Procs))
+	for i := range order {
+		order[i] = i
+	}
+	if len(s.DomainOrder) == len(s.Procs) {
+		seen := map[int]bool{}
+		ok := true
+		for _, x := range s.DomainOrder {
+			if x < 0 || x >= len(s.Procs) || seen[x] {
+				ok = false
+			}
+			seen[x] = true
+		}
+		if ok {
+			order = s.DomainOrder
+		}
+	}
+	// domains first, in the requested order
+	for _, i := range order {
+		ps := s.Procs[i]
 		key := fmt.Sprintf("%+v", ps)
 		dom, shared := domOf[key]
 		if !s.ShareDomains || !shared {
@@ -99,7 +122,11 @@ func Build(s BMSpec) (*bondmachine.Bondmachine, error) {
 			dom = len(bm.Domains) - 1
 			domOf[key] = dom
 		}
-		if _, err := bm.Add_processor(dom); err != nil {
+		procDom[i] = dom
+	}
+	// then the processors in index order
+	for i := range s.Procs {
+		if _, err := bm.Add_processor(procDom[i]); err != nil {
 			return nil, err
 		}
 	}
@@ -305,6 +332,9 @@ func HandshakeMachine(t *rapid.T, o HSOptions) BMSpec {
 			}
 		}
 	}
+	if o.Replicate && len(s.Procs) >= 2 && rapid.Bool().Draw(t, "shuffledomains") {
+		s.DomainOrder = rapid.Permutation(seqInts(len(s.Procs))).Draw(t, "domainorder")
+	}
 	for i := range s.Procs {
 		ps := &s.Procs[i]
 		ps.Ops = UsedOps(ps.Prog)
@@ -314,4 +344,12 @@ func HandshakeMachine(t *rapid.T, o HSOptions) BMSpec {
 		}
 	}
 	return s
+}
+
+func seqInts(n int) []int {
+	r := make([]int, n)
+	for i := range r {
+		r[i] = i
+	}
+	return r
 }
